@@ -672,9 +672,10 @@ def r_cumul(E):
                                 "dumps; the negativity check precedes the assignment")
     rel, fn = pm.find_function(ST, "Storage.update_full_cumulative_storage_need")
     res.instances += 1
+    from ..astutil import fully_expanded as _fxc
     cs = [c for c in _calls(fn) if isinstance(c.func, ast.Attribute) and c.func.attr == "cumsum"]
     base = [n for n in ast.walk(fn) if isinstance(n, ast.AugAssign) and isinstance(n.op, ast.Add)
-            and "base_storage_need" in norm(n.value)]
+            and "base_storage_need" in norm(_fxc(n.value, fn))]
     if len(cs) != 1 or len(base) != 1:
         res.undecided.append("cumulative sum / base need statements not found")
     else:
@@ -685,10 +686,18 @@ def r_cumul(E):
         first_cell = isinstance(tgt, ast.Subscript) and norm(tgt.slice) in ("(0, 0)", "0, 0", "0")
         if not first_cell:
             res.undecided.append(f"base need added to `{norm(tgt)}`")
-        if norm(cs[0].func.value) != norm(tgt.value.value if isinstance(tgt, ast.Subscript) and isinstance(tgt.value, ast.Attribute) else tgt):
+        # the frame / array summed: `<frame>.cumsum()` or `np.cumsum(<array>)`; the one that received the base need:
+        # `<frame>.iat[0, 0] += …` or `<array>[0] += …`
+        summed = cs[0].args[0] if norm(cs[0].func.value) in ("np", "numpy") and cs[0].args else cs[0].func.value
+        got_base = tgt.value.value if isinstance(tgt, ast.Subscript) and isinstance(tgt.value, ast.Attribute) else (
+            tgt.value if isinstance(tgt, ast.Subscript) else tgt)
+        if norm(summed) != norm(got_base):
             res.undecided.append("cumsum is applied to another frame than the one the base need was added to")
     res.instances += 1
-    chk = [n for n in ast.walk(fn) if isinstance(n, ast.If) and any(isinstance(x, ast.Raise) for x in n.body)]
+    from ..astutil import nodes_through_helpers as _nthr
+    _sf = pm.helper_finder("Storage")
+    chk = [n for n in ast.walk(fn) if isinstance(n, ast.If) and any(
+        isinstance(x, ast.Raise) for st_ in n.body for x in _nthr(st_, _sf, depth=2))]
     asg = [n for n in ast.walk(fn) if isinstance(n, ast.Assign) and norm(n.targets[0]) == "self.full_cumulative_storage_need"
            and "EmptyExplainableObject" not in norm(n.value)]
     if not chk:
